@@ -580,7 +580,7 @@ STACKED_CAPSTONE = [
 STACKED_CAPSTONE = STACKED_CAPSTONE + [(swap_colours(t), w + " (colours exchanged)") for t, w in STACKED_CAPSTONE[:5]]
 
 
-def do_search(spec, record_solver=False, select=False):
+def do_search(spec, record_solver=False, select=False, after_phase=None):
     """run the searches a spec describes on the implementation; returns the trace"""
     import torch
     from tak import mcts
@@ -601,6 +601,7 @@ def do_search(spec, record_solver=False, select=False):
     tree = root
     expected = root_snap             # what the current tree's position must be, derived from root_snap only
     trace = {"spec": spec, "root_pos": pos, "root_snap": root_snap, "rec": rec, "crash": None, "select": None, "n": n}
+    abs_path = []                    # child indices from the first root to the current tree
     with rec.patched(record_solver):
         try:
             for j, ph in enumerate(spec["phases"]):
@@ -610,6 +611,7 @@ def do_search(spec, record_solver=False, select=False):
                         break
                     i = pick % len(tree.children)
                     actual.append(i)
+                    abs_path.append(i)
                     tree = tree.children[i]
                     try:
                         expected = legal_ids(expected).get(encoding.encode_move(size, tree.move))
@@ -635,6 +637,8 @@ def do_search(spec, record_solver=False, select=False):
                     rec.problems.append({"clause": "the searched position is left untouched", "phase": j,
                                          "position_before": j_snap(phr["snap_before"]),
                                          "position_after": takio.j_pos(tree.position)})
+                if after_phase is not None and not rec.problems:
+                    after_phase(trace, engine, root, tree, list(abs_path), j)
             if select and tree.children:      # a move is requested only where there is one to play
                 rec.choices, rec.calls = [], []
                 m = engine.select_root_move(tree)
@@ -845,7 +849,11 @@ def c_phase(ph, with_calls):
     noise = copt(None if ph["noise"] is None else c_qvec(ph["noise"]))
     css = clist([czlist(cs) for cs in ph["css"]])
     calls = clist([clist([c_call(c) for c in cl]) for cl in ph["calls"]]) if with_calls else "[]"
-    return f"(mkPhase {czlist(ph['path'])} {cz(ph['limit'])} {noise} {css} {calls})"
+    queries = "[]"
+    if with_calls and ph.get("queries"):
+        queries = clist([f"({czlist(q['path'])}, {c_fq(q['C'])}, {copt(None if q['call'] is None else c_call(q['call']))})"
+                         for q in ph["queries"]])
+    return f"(mkPhase {czlist(ph['path'])} {cz(ph['limit'])} {noise} {css} {calls} {queries})"
 
 
 def c_evals(trace):
